@@ -22,7 +22,7 @@ func init() {
 
 func init() {
 	register(&propDef{ID: "C18", Title: "No request, watched object or configuration can crash or wedge a daemon",
-		Explanation: "Decides four families of necessary conditions, each exact on its instances: (R1) results of module functions that can return (nil, nil) (found automatically; through interface dispatch too) are dereferenced only behind a nil test of the same value; (R2) the optional fields policy.ingressRule / policy.egressRule are dereferenced only behind a nil test of the same access path; (R3) no loop continues on `i <= bound` with i++ on a fixed-width counter, and the IP range walk increments only while first != last; (R4) every lock acquisition is released on every return (explicitly or by defer), every lock-wrapper releaser is deferred immediately, the lock-order graph is acyclic and no lock class is re-acquired while held; (R5) the policy name table has one entry per declared policy; (R7) in the pool decoder every pointer decoded from JSON (pointer fields, elements of slices of pointers) is dereferenced only behind a nil test; (R11) at every decode call of an input surface in pkg/ (json.Unmarshal, Decoder.Decode, restful ReadEntity; 5 named sites that read galaxy's own state files or test data are exempt) the pointers a JSON null or a missing key leaves nil — the decoded pointer itself for a **T target, elements of slices / values of maps of pointers, pointer fields of module-defined structs without a custom decoder — are followed through locals, arguments (static, interface and func-field callees), results and conversions, and every dereference is reachable only through the non-nil edge of a test of the same access path, behind a validation loop whose nil edge leaves the function, or behind a caller-side test of the field; (R6) the page/size query parameters are returned by their parsers only inside a constant range (their product feeds a slice bound). (R8) the policy rule slices are index-aligned with the spec; (R9) module-wide, every index of the form x+c (c>0) is compared — that very value, or x against len-c — with a slice length on an edge dominating the access (one named exemption); (R12) in pkg/ every constant index into a slice or string is covered by a dominating length test of that slice (or the Len() of the set a List() was made from), is [0] of strings.Split, or is one of 10 named sites; (R10) a failed release event is re-queued only after its retry counter was stored incremented and only below a constant bound. Does not decide general index/slice bounds, type assertions, division, recursion depth, general termination, or panics inside dependencies.",
+		Explanation: "Decides four families of necessary conditions, each exact on its instances: (R1) results of module functions that can return (nil, nil) (found automatically; through interface dispatch too) are dereferenced only behind a nil test of the same value; (R2) the optional fields policy.ingressRule / policy.egressRule are dereferenced only behind a nil test of the same access path; (R3) no loop continues on `i <= bound` with i++ on a fixed-width counter, and the IP range walk increments only while first != last; (R4) every lock acquisition is released on every return (explicitly or by defer), every lock-wrapper releaser is deferred immediately, the lock-order graph is acyclic and no lock class is re-acquired while held; (R5) the policy name table has one entry per declared policy; (R7) in the pool decoder every pointer decoded from JSON (pointer fields, elements of slices of pointers) is dereferenced only behind a nil test; (R11) at every decode call of an input surface in pkg/ (json.Unmarshal, Decoder.Decode, restful ReadEntity; 5 named sites that read galaxy's own state files or test data are exempt) the pointers a JSON null or a missing key leaves nil — the decoded pointer itself for a **T target, elements of slices / values of maps of pointers, pointer fields of module-defined structs without a custom decoder — are followed through locals, arguments (static, interface and func-field callees), results and conversions, and every dereference is reachable only through the non-nil edge of a test of the same access path, behind a validation loop whose nil edge leaves the function, or behind a caller-side test of the field; (R6) the page/size query parameters are returned by their parsers only inside a constant range (their product feeds a slice bound). (R8) the policy rule slices are index-aligned with the spec; (R9) module-wide, every index of the form x+c (c>0) is compared — that very value, or x against len-c — with a slice length on an edge dominating the access (one named exemption); (R13) every dereference of an entry of ByKeyAndIPRanges(key, ranges) — nil where the key holds no ip in that range — is behind a nil test of that entry, a loop that leaves the function on a nil entry, or the `len(ranges) == 0` edge (dense answer); (R12) in pkg/ every constant index into a slice or string is covered by a dominating length test of that slice (or the Len() of the set a List() was made from), is [0] of strings.Split, or is one of 10 named sites; (R10) a failed release event is re-queued only after its retry counter was stored incremented and only below a constant bound. Does not decide general index/slice bounds, type assertions, division, recursion depth, general termination, or panics inside dependencies.",
 		Assumptions: []string{"CFG paths; no value correlation (one listed exemption relies on one)"},
 		Run: func(c *Ctx) {
 			c.Rule("C18.R1", "optional results checked", 4)
@@ -48,6 +48,8 @@ func init() {
 				exploreTypeAsserts(c)
 				exploreSharedFields(c)
 			}
+			c.Rule("C18.R13", "entries of a per-range lookup result are nil-tested before use", 2)
+			ruleLookupResultNilChecked(c, "C18.R13")
 			c.Rule("C18.R12", "constant indexes are covered by a length test", 14)
 			ruleConstIndexChecked(c, "C18.R12")
 			c.Rule("C18.R10", "a failed release event is retried a bounded number of times", 1)
